@@ -41,6 +41,9 @@ MENUS = {
     'partial': M('partial', ('MKP', 'CALLP', 'CALLP0', 'brk'), ('if', 'while'), vars_=('x',)),
     # subscript stores whose index is an attribute / element of an object variable first bound in the same block
     'compidx': M('compidx', ('BINDP', 'SUBPA', 'RSUB', 'RATTR'), ('if', 'while', 'for'), for_targets=('i',)),
+    # p is bound in a try body after a statement that raises (so it is really unbound afterwards, no placeholder), then used
+    # as the base of a composite inside control flow; programs are the fixed prefix + every block of the menu (see programs())
+    'trybind': M('trybind', ('SUBPA', 'RSUB'), ('if', 'while', 'for'), for_targets=('i',)),
     # nested / starred loop targets
     'targets': M('targets', ('RW', 'R', 'brk'), ('if', 'for'), for_targets=('nest', 'star'), ret=('x',)),
     'glob': M('glob', ('W', 'RW', 'R', 'brk', 'ret'), ('if', 'while', 'for'), vars_=('G',), for_targets=('i', 'G'), ret=('G',)),
@@ -72,13 +75,14 @@ PLAN = {
         ('expr', 3, (('x',),), (('x',),)),
         ('state', 3, (('x', 'y'),), (('x', 'y'),)),
         ('callee', 3, (('x',),), (('x',),)),
-        ('glob', 3, ((), ('G',)), (('G',),)),
+        ('glob', 3, ((), ('G',)), (('G',), ())),     # () : the global is only assigned, never read again by the function
         ('alias', 4, (('x',),), ((),)),
         ('trans', 4, (('x',),), ((),)),
         ('deep', 3, (('x',),), ((), ('x',))),
         ('partial', 4, (('x',),), (('x',),)),
         ('targets', 3, (('x', 'y'),), (('x', 'y'), ())),
-        ('compidx', 3, ((),), ((),)),
+        ('compidx', 4, ((),), ((),)),
+        ('trybind', 3, ((),), ((),)),
     ],
     'thorough': [
         ('core', 3, ALL_PRO, ALL_EPI),
@@ -89,13 +93,14 @@ PLAN = {
         ('expr', 4, (('x',),), (('x',),)),
         ('state', 4, (('x', 'y'),), (('x', 'y'),)),
         ('callee', 4, (('x',),), (('x',),)),
-        ('glob', 4, ((), ('G',)), (('G',),)),
+        ('glob', 4, ((), ('G',)), (('G',), ())),
         ('alias', 5, (('x',),), ((), ('x',))),
         ('trans', 5, (('x',),), ((), ('x',))),
         ('deep', 4, (('x',), ()), ((), ('x',))),
         ('partial', 5, (('x',),), (('x',),)),
         ('targets', 4, (('x', 'y'), ()), (('x', 'y'), ())),
-        ('compidx', 4, ((),), ((),)),
+        ('compidx', 5, ((),), ((),)),
+        ('trybind', 4, ((),), ((),)),
     ],
 }
 CAP = {'quick': 6, 'thorough': 7}
@@ -132,6 +137,8 @@ def programs(tier, plan=None):
       for body in ps.blocks(n, menu):
         if name == 'compidx' and _reads_p_before_binding_it(body):
           continue
+        if name == 'trybind':
+          body = (('try', (('raise',), ('BINDP',)), (('PASS',),), None),) + body
         for pro in pros:
           for epi in epis:
             key = (name, n, pro, epi)
